@@ -4,6 +4,8 @@ PROPS = [json.loads(l)["id"] for l in open("properties.jsonl")]
 BASE = "cd /repo && /venv/bin/python -m pytest -ra -q -p no:cacheprovider --timeout=900 --continue-on-collection-errors"
 TECH = "contract-based deductive verification: sidecar contracts on the real functions, VCs generated from /repo's AST by pyvc, discharged by z3 (cvc5 fallback); counter-models replayed natively"
 CLAIMED = {
+ "C15": dict(text="eq (the Schema.__eq__ override), Schema.__ne__, Props.__eq__ (two loops with invariants) and optional.__eq__ are proved to compute the specification relations struct_eq / props_eq / gen_eq (schema-vs-value = conforms, from either side; != is the negation); reflexivity, symmetry and transitivity are lemmas over those definitions with the members' laws as induction hypothesis. The Validator verdict contract is re-proved in this check.",
+             note="Laws proved for schemas of the same class (a strict-subclass operand makes == asymmetric: not covered); congruence/discrimination clauses of the statement are not separate obligations. Known findings: transitivity through a missing (Nil) schema-valued parameter; NaN parameters.", ref="DESIGN.md 4.15"),
  "C13": dict(text="Contracts proved against the real bodies: union / AnySchema.__call__ / _flatten_schemas (recursive, loop invariant: the flattened alternatives accept exactly what the given ones accept), DictSchema.__add__ (right-biased merge of the key tables), __getitem__, keys, SchemaFacade.alias, make_required (two loops; same keys and members, optional flag cleared iff listed); the statement's equivalences are lemmas over those contracts and the definition of conforms. The Validator verdict contract is re-proved in this check.",
              note="DictSchema.__iter__ / AnySchema.__iter__ (generator functions) are outside the executor's subset and not under contract; reachable-schema precondition on operands. ", ref="DESIGN.md 4.13"),
  "C14": dict(text="from_native is proved (recursive contract, comprehension rule per element) to return a well-formed schema R with conforms(R, w) <=> denotes(x, w) for every w, where denotes is the specification of `the same plain value` written from the statement; to raise only ValueError on the plain-value domain; reflexivity (R accepts x) is a lemma over that contract by structural induction. The Validator verdict contract it composes with is re-proved in this check.",
